@@ -1,1 +1,2 @@
 //! shared helpers for the verification harness binaries
+pub mod tracesink;
